@@ -273,3 +273,29 @@ class sky_contains_follows_updates:
         'second_answer_is_for_the_updated_region': lambda self, sc, wcs, result:
             bool(result[1]) == bool(self.to_pixel(wcs).contains(pixcoord_of(wcs, sc))),
     }
+
+
+def _answer_at(ans, k):
+    """the answer for position k of a batch: an array answer holds one per position, a single bool answers for all of them"""
+    from vprim import is_array
+    return bool(ans[k]) if is_array(ans) else bool(ans)
+
+
+@contract('regions/core/core.py::SkyRegion.contains', props=['C06'])
+class sky_membership_of_a_batch_of_positions:
+    """asked about several sky positions at once, a sky region answers for each as its pixel image does for the converted position
+    (an excluded point or text region contains every position, also in a batch)"""
+    cases = {k + '-' + f: {'kind': k, 'frame': f} for k in ('circle', 'point', 'text', 'ellipse') for f in ('icrs',)}
+    forall = {'K': 'int'}
+
+    def setup(B, kind='circle', frame='icrs'):
+        from contracts.c17_validation import sky_array
+        r = sky_region(B, kind, 'r', frame, simple=True)
+        wcs = B.wcs('w', frame)
+        if kind != 'line':
+            nondegenerate_sky(B, wcs, r.center)
+        return dict(self=r, wcs=wcs, kind=kind, scs=sky_array(B, 'qs', frame))
+    pre = lambda self, kind: sky_wf(kind, self)
+    call = lambda self, scs, wcs: (self.contains(scs, wcs), self.to_pixel(wcs).contains(pixcoord_of(wcs, scs)))
+    post = {'same_answer_for_every_position': lambda scs, result, K:
+            (not (0 <= K and K < len(scs))) or _answer_at(result[0], K) == _answer_at(result[1], K)}
